@@ -907,5 +907,7 @@ func c02gen(c *h.Ctx, yield func(*h.Case)) {
 }
 
 func init() {
-	h.RegisterProp(h.Prop{Name: "c02", Gen: c02gen, Exec: c02exec})
+	// sub-processes running batches of cases (common_batch.go): a panic in a goroutine of the code under test is the
+	// observation `crash` of the case that was running, not the end of the harness
+	registerBatched(h.Prop{Name: "c02", Gen: c02gen, Exec: c02exec, Workers: 10, Timeout: 60 * time.Second}, 60)
 }
